@@ -35,7 +35,7 @@ type GeometricDistribution struct {
 /* -------------------------------------------------------------------------- */
 
 func NewGeometricDistribution(p Scalar) (*GeometricDistribution, error) {
-  if p.GetFloat64() <= 0.0 || p.GetFloat64() > 1.0 {
+  if !(p.GetFloat64() > 0.0 && p.GetFloat64() <= 1.0) {
     return nil, fmt.Errorf("invalid value for parameter p: %f", p.GetFloat64())
   }
 
